@@ -435,7 +435,17 @@ class Explorer(object):
         st.ver[key] = st.ver.get(key, 0) + 1
 
     # -- constant folding --------------------------------------------------
+    @staticmethod
+    def _is_value_slot(v):
+        """v is an element of an option's value vector: opt->values[k].  Those are never NULL: cfg_addval() counts a
+        slot only after it was allocated (C18 R18.2 'half-built slot' and C07 watch over that)"""
+        return v[0] == 'ld' and (
+            (v[1][0] == 'idx' and v[1][1][0] == 'ld' and v[1][1][1][0] == 'fld' and v[1][1][1][3] == 'values' and v[1][1][1][2] == 'cfg_opt_t') or
+            (v[1][0] == 'ld' and v[1][1][0] == 'fld' and v[1][1][3] == 'values' and v[1][1][2] == 'cfg_opt_t'))
+
     def _icmp(self, pred, a, b, st):
+        if pred in ('eq', 'ne') and b == C0 and self._is_value_slot(a):
+            return C0 if pred == 'eq' else C1
         ka = st.known.get(a) if not is_const(a) else a[1]
         kb = st.known.get(b) if not is_const(b) else b[1]
         if a == b and pred in ('eq', 'ule', 'uge', 'sle', 'sge'):
